@@ -76,3 +76,76 @@ func runLaxBalanced(c *vkit.Collector, rng *vkit.Rng, k int) {
 		}
 	}
 }
+
+// The six face loops (and the cells of one face at level 1) added to ONE index one at a time, with
+// queries between the additions ("before or after the index exists", non-first updates of the
+// index): after every addition each probe is contained by exactly the shapes whose own fresh loop
+// contains it, and once all loops of the tiling are in, by exactly one.
+func runIncrementalTiling(c *vkit.Collector, rng *vkit.Rng, k int) {
+	var ids []s2.CellID
+	if k%2 == 0 {
+		for f := 0; f < 6; f++ {
+			ids = append(ids, s2.CellIDFromFace(f))
+		}
+	} else {
+		for f := 0; f < 6; f++ {
+			if f == k%6 {
+				ids = append(ids, s2.CellIDFromFace(f).Children()[:]...)
+			} else {
+				ids = append(ids, s2.CellIDFromFace(f))
+			}
+		}
+	}
+	for i := len(ids) - 1; i > 0; i-- {
+		j := rng.Intn(i + 1)
+		ids[i], ids[j] = ids[j], ids[i]
+	}
+	var probes []s2.Point
+	for i := 0; i < 40; i++ {
+		probes = append(probes, randPoint(rng))
+	}
+	for _, id := range ids {
+		probes = append(probes, s2.CellFromCellID(id).Center())
+	}
+	class := fmt.Sprintf("tiling:incremental:%d shapes", len(ids))
+	c.Class(class)
+	idx := s2.NewShapeIndex()
+	q := s2.NewContainsPointQuery(idx, s2.VertexModelSemiOpen)
+	var fresh []*s2.Loop
+	rep := func(p s2.Point, step int, extra string) map[string]interface{} {
+		var toks []string
+		for _, id := range ids {
+			toks = append(toks, id.ToToken())
+		}
+		return map[string]interface{}{"class": class, "k": k, "cells_in_order_of_addition": toks, "added_so_far": step + 1, "point_bits": bits(p), "what": extra}
+	}
+	for step, id := range ids {
+		idx.Add(s2.LoopFromCell(s2.CellFromCellID(id)))
+		fresh = append(fresh, s2.LoopFromCell(s2.CellFromCellID(id)))
+		for _, p := range probes {
+			want := 0
+			for _, l := range fresh {
+				if l.ContainsPoint(p) {
+					want++
+				}
+			}
+			c.Evals++
+			got, panicked := func() (n int, pan interface{}) {
+				defer func() { pan = recover() }()
+				return len(q.ContainingShapes(p)), nil
+			}()
+			if panicked != nil {
+				c.Violate("ContainsPointQuery.incremental.panic", fmt.Sprintf("query on an index that was extended after it had been built panics: %v", panicked), rep(p, step, "add, query, add, query"))
+				return
+			}
+			if got != want {
+				c.Violate("ContainsPointQuery.incremental", fmt.Sprintf("index extended shape by shape: %d containing shapes, fresh loops say %d", got, want), rep(p, step, "add, query, add, query"))
+				return
+			}
+			if step == len(ids)-1 && want != 1 {
+				c.Violate("tiling.exactlyOnce.incremental", fmt.Sprintf("a point is contained by %d loops of a tiling", want), rep(p, step, "complete tiling"))
+				return
+			}
+		}
+	}
+}
